@@ -375,6 +375,12 @@ def check_radar(col, binpath, rng, tag, seg_kind, delay_kind, malformed, disconn
                 diff = procs.termios_diff(sess.p.termios_before, sess.p.termios_now())
                 if diff or not sess.p.screen.cursor_visible or sess.p.screen.mouse_reporting():
                     col.add("C16", f"C16|radar_terminal_not_restored_on_disconnect|disc={disconnect}", f"termios flags changed {diff}, cursor visible {sess.p.screen.cursor_visible}, mouse modes on {sess.p.screen.mouse_reporting()}", inp)
+    except Inconclusive:
+        # a scenario that cannot be completed because radar is gone (and nobody asked it to quit) is a finding
+        if sess.p.alive() or any(e[1] == "closed" for e in sess.srv.log):
+            raise
+        loc = sess.panic_location()
+        col.add("C16", f"C16|radar_terminated|{cls}", f"radar exited (status {sess.p.p.returncode}, panic at {loc}) while the server was connected and no quit was requested", dict(inp, panic=loc))
     finally:
         sess.close()
 
